@@ -231,6 +231,15 @@ fn cmd_run(args: &[String]) -> i32 {
                     let ps = run_seed(seed, i);
                     let mut r = Rng::new(ps);
                     let scn = gen_scenario(&mut r, false);
+                    // a fresh OS thread per program: per-thread state of the tree under test
+                    // (thread_local!) never leaks from one program's executions into another's
+                    let verdict = std::thread::scope(|s2| {
+                        std::thread::Builder::new()
+                            .stack_size(16 << 20)
+                            .spawn_scoped(s2, || program_verdict(&scn, ps, schedules, &execs, &inter))
+                            .expect("HARNESS: spawn program thread")
+                            .join()
+                    });
                     *kinds.lock().unwrap().entry(scn.kind().to_string()).or_insert(0) += 1;
                     {
                         let mut h = Fnv::default();
@@ -240,29 +249,24 @@ fn cmd_run(args: &[String]) -> i32 {
                     if i < 2 {
                         samples.lock().unwrap().push(serde_json::json!({"program": i, "scenario": scn}));
                     }
-                    // schedule-free baseline first: a failure here is not a threading matter
-                    let base = seasim::observe::guarded(|| run_scenario::<SeqRt>(&scn));
-                    let base_clean = matches!(&base, Ok(f) if f.is_empty());
-                    if !base_clean {
-                        match &base {
-                            Ok(f) if f.iter().all(|x| x.check != "harness") => {
-                                not_schedule_dependent.fetch_add(1, Ordering::Relaxed);
-                            }
-                            other => harness.lock().unwrap().push(format!("program {} sequential baseline: {:?}", i, other)),
+                    let fail: Option<(String, Failure)> = match verdict {
+                        Ok(Verdict::BaselineFails) => {
+                            not_schedule_dependent.fetch_add(1, Ordering::Relaxed);
+                            done.fetch_add(1, Ordering::Relaxed);
+                            continue;
                         }
-                        done.fetch_add(1, Ordering::Relaxed);
-                        continue;
-                    }
-                    let mut fail: Option<(String, Failure)> = None;
-                    if let Err(f) = explore(&scn, RandomScheduler::new_from_seed(ps, schedules), &execs, &inter) {
-                        fail = Some(("random".into(), f));
-                    }
-                    if fail.is_none() {
-                        let depth = 1 + (ps % 3) as usize;
-                        if let Err(f) = explore(&scn, PctScheduler::new_from_seed(ps, depth, schedules), &execs, &inter) {
-                            fail = Some((format!("pct{}", depth), f));
+                        Ok(Verdict::Harness(m)) => {
+                            harness.lock().unwrap().push(format!("program {}: {}", i, m));
+                            done.fetch_add(1, Ordering::Relaxed);
+                            continue;
                         }
-                    }
+                        Ok(Verdict::Explored(f)) => f,
+                        Err(p) => {
+                            harness.lock().unwrap().push(format!("program {} thread panicked: {}", i, seasim::observe::panic_message(p)));
+                            done.fetch_add(1, Ordering::Relaxed);
+                            continue;
+                        }
+                    };
                     if let Some((sched, f)) = fail {
                         // minimise: smaller scenarios, schedules re-explored for each candidate
                         let (scn, sched, f) = if f.findings.iter().all(|x| x.check == "harness") {
@@ -346,6 +350,31 @@ fn cmd_run(args: &[String]) -> i32 {
 }
 
 fn silence_hooks_thread() {}
+
+enum Verdict {
+    BaselineFails,
+    Harness(String),
+    Explored(Option<(String, Failure)>),
+}
+
+/// thread-free baseline, then Random and PCT exploration of one program (on the calling thread)
+fn program_verdict(scn: &Scenario, ps: u64, schedules: usize, execs: &AtomicU64, inter: &Mutex<BTreeSet<u64>>) -> Verdict {
+    // schedule-free baseline first: a failure here is not a threading matter
+    let base = seasim::observe::guarded(|| run_scenario::<SeqRt>(scn));
+    match &base {
+        Ok(f) if f.is_empty() => {}
+        Ok(f) if f.iter().all(|x| x.check != "harness") => return Verdict::BaselineFails,
+        other => return Verdict::Harness(format!("sequential baseline: {:?}", other)),
+    }
+    if let Err(f) = explore(scn, RandomScheduler::new_from_seed(ps, schedules), execs, inter) {
+        return Verdict::Explored(Some(("random".into(), f)));
+    }
+    let depth = 1 + (ps % 3) as usize;
+    if let Err(f) = explore(scn, PctScheduler::new_from_seed(ps, depth, schedules), execs, inter) {
+        return Verdict::Explored(Some((format!("pct{}", depth), f)));
+    }
+    Verdict::Explored(None)
+}
 
 fn try_fail(sc: &Scenario, ps: u64, schedules: usize, execs: &AtomicU64, inter: &Mutex<BTreeSet<u64>>) -> Option<(String, Failure)> {
     // only scenarios that still hold without threads are candidates
